@@ -21,7 +21,9 @@ func runC27(c *core.Ctx) error {
 	type row struct {
 		name, file, wl string
 	}
-	rows := []row{{"probe", probe("probe1.tl"), "*"}}
+	// migr1.tl: two namespaces, generics with # parameters used with constants and with variables,
+	// functions with explicit and implicit magics; migrated as a whole and one namespace at a time
+	rows := []row{{"probe", probe("probe1.tl"), "*"}, {"migr", probe("migr1.tl"), "*"}, {"migr-app", probe("migr1.tl"), "app."}}
 	if c.Thorough() {
 		rows = append(rows, row{"cases", tls("cases.tl"), "*"}, row{"probe-ns", probe("probe1.tl"), "a."})
 	}
@@ -68,6 +70,23 @@ func runC27(c *core.Ctx) error {
 			c.Violate(fmt.Sprintf("migration/%s/%s/does-not-compile", r.name, r.wl),
 				fmt.Sprintf("the migrated schema is not accepted / does not build: %s\nmigrated .tl2:\n%s", oneLine(err.Error(), 600), string(mb)), nil)
 			continue
+		}
+		// the registry of the migrated schema: every item keeps its name, its function-ness and its
+		// magic (the TL2 request of a function starts with it)
+		for name, it := range orig.Items {
+			mit, ok := mig.Items[name]
+			c.Add("evaluations", 1)
+			switch {
+			case !ok:
+				if it["fn"] == true {
+					c.Violate(fmt.Sprintf("migration/%s/%s/%s/function-missing", r.name, r.wl, name), "function "+name+" does not exist after migration", nil)
+				}
+			case it["fn"] != mit["fn"]:
+				c.Violate(fmt.Sprintf("migration/%s/%s/%s/function-ness", r.name, r.wl, name), "item "+name+" changes between function and type", nil)
+			case it["fn"] == true && it["tag"] != mit["tag"]:
+				c.Violate(fmt.Sprintf("migration/%s/%s/%s/function-magic", r.name, r.wl, name),
+					fmt.Sprintf("function %s has magic %08x in the original schema and %08x after migration", name, uint32(it["tag"].(float64)), uint32(mit["tag"].(float64))), nil)
+			}
 		}
 		var tops []string
 		types := orig.Schema["types"].(map[string]any)
